@@ -32,8 +32,8 @@ type c08Case struct {
 	UserEmpty bool `json:"user_empty,omitempty"`
 	// Decoy: rules of another user in the same configuration; must never
 	// influence this user's verdicts.
-	Decoy []string `json:"decoy,omitempty"`
-	Requests []string  `json:"requests"` // {ROOT}-relative templates or relative paths (cwd = root)
+	Decoy    []string `json:"decoy,omitempty"`
+	Requests []string `json:"requests"` // {ROOT}-relative templates or relative paths (cwd = root)
 }
 
 type c08Answer struct {
